@@ -842,9 +842,14 @@ func runHistory(c histCase) (cls []string, err error) {
 		case "reopen":
 			target = ""
 			settleAll(w, false)
-			// an asynchronous deletion persists the repo once more after the instance left the listing; give it
-			// time to finish before the store is closed (never decides a verdict)
-			time.Sleep(20 * time.Millisecond)
+			// an asynchronous deletion persists the repo once more after the instance left the listing.  Its
+			// goroutine belongs to the "old process": in a real restart it dies with the process, here it would
+			// survive the reopen and write the old repo record over the new one.  Let it finish first.
+			if deletions > 0 {
+				time.Sleep(400 * time.Millisecond)
+			} else {
+				time.Sleep(20 * time.Millisecond)
+			}
 			datastore.CloseReopenTest()
 			w.class("hist/reopen")
 			if deletions > 0 {
